@@ -6,6 +6,8 @@
                      hypotheses, closed at Qc);
      Module PwCopy : pointwise_matrix (counting pass = fill pass, fuel, wf) and the crs
                      constructors (round trip);
+     Module PwPos  : pointwise_matrix = block maximum on block rows with a single block column;
+     Section PowerMethod : structure of one power-method sweep;
      top level     : refutation of the block-maximum specification of pointwise_matrix by the
                      faithful model (witnesses replayed on the implementation by the harness). *)
 From Coq Require Import Sorting.Sorted Sorting.Permutation.
@@ -1862,3 +1864,372 @@ Proof.
   split; [vm_compute; reflexivity|]. split; [apply pw_out_some; vm_compute; reflexivity|].
   vm_compute. discriminate.
 Qed.
+
+(* ------------------------------------------------------------------ *)
+(* power method (any Scalar): one sweep of the unscaled iteration computes b1 = A b0,
+   ||b1||^2 accumulated as sum |s_i s_i| and the estimate sum_i |s_i b0_i|  (structural
+   part of the power-method statement; the bound by the largest singular value is not proved) *)
+Section PowerMethod.
+Context {S : Scalar}.
+Local Notation vec := (vec S).
+Local Notation row := (row S).
+Local Notation crs := (crs S).
+
+Lemma pm_inner_false (b0 : vec) (i : nat) (r : row) (a dia : S) :
+  fold_left (fun (sd : S * S) e =>
+               (fst sd + snd e * vget b0 (fst e),
+                if false && Nat.eqb (fst e) i then snd e else snd sd)) r (a, dia)
+  = (fold_left (fun acc e => acc + snd e * vget b0 (fst e)) r a, dia).
+Proof. revert a; induction r as [|e r IH]; intro a; simpl; [reflexivity|]. apply IH. Qed.
+
+Lemma pm_row_false (b0 : vec) nrm rad dia (b1 : vec) i (r : row) :
+  pm_row false b0 (nrm, rad, dia, b1) (i, r) =
+  (nrm + sabs (dotrow r b0 * dotrow r b0), rad + sabs (dotrow r b0 * vget b0 i), dia, b1 ++ [dotrow r b0]).
+Proof. unfold pm_row. cbn [fst snd]. rewrite pm_inner_false. reflexivity. Qed.
+
+Lemma pm_fold_false (b0 : vec) (l : list row) : forall k nrm rad dia (b1 : vec),
+  fold_left (pm_row false b0) (combine (seq k (length l)) l) (nrm, rad, dia, b1) =
+  (fold_left (fun a s => a + sabs (s * s)) (map (fun r => dotrow r b0) l) nrm,
+   fold_left (fun a (p : nat * S) => a + sabs (snd p * vget b0 (fst p)))
+             (combine (seq k (length l)) (map (fun r => dotrow r b0) l)) rad,
+   dia, b1 ++ map (fun r => dotrow r b0) l).
+Proof.
+  induction l as [|r l IH]; intros k nrm rad dia b1.
+  - simpl. rewrite app_nil_r. reflexivity.
+  - cbn [length seq combine fold_left map]. rewrite pm_row_false, IH. cbn [fst snd].
+    rewrite <- app_assoc. reflexivity.
+Qed.
+
+Theorem pm_iter_unscaled (A : crs) (b0 : vec) :
+  pm_iter false A b0 =
+  (fold_left (fun a s => a + sabs (s * s)) (map (fun r => dotrow r b0) (rows A)) s0,
+   fold_left (fun a (p : nat * S) => a + sabs (snd p * vget b0 (fst p)))
+             (indexed (map (fun r => dotrow r b0) (rows A))) s0,
+   map (fun r => dotrow r b0) (rows A)).
+Proof.
+  unfold pm_iter, indexed. rewrite pm_fold_false. rewrite map_length. reflexivity.
+Qed.
+End PowerMethod.
+
+(* ------------------------------------------------------------------ *)
+(* pointwise_matrix, positive part: on block rows whose stored entries all lie in ONE block
+   column (where no entry can end the scan of a block column) the scan IS the block maximum *)
+Module PwPos.
+Local Close Scope S_scope.
+Section PwPos.
+Context {S : Scalar}.
+Local Notation row := (row S).
+Local Notation crs := (crs S).
+
+(* ------------------------------------------------------------------ *)
+(* auxiliary definitions                                               *)
+
+(* norms of the stored entries of one row / of the block row, in storage order *)
+Definition rvals (r : row) : list S := map (fun e => sabs (snd e)) r.
+Definition jvals (js : list row) : list S := flat_map rvals js.
+
+(* the (first, cur_val) accumulator of the C++ folded over a list of norms *)
+Definition accf (acc : option S) (vals : list S) : option S :=
+  fold_left (fun a v => Some (match a with None => v | Some m => smax m v end)) vals acc.
+
+Lemma accf_app acc l1 l2 : accf acc (l1 ++ l2) = accf (accf acc l1) l2.
+Proof. unfold accf. apply fold_left_app. Qed.
+
+Lemma accf_Some m l : accf (Some m) l = Some (fold_left smax l m).
+Proof. revert m; induction l as [|x tl IH]; intro m; simpl; [reflexivity|]. apply IH. Qed.
+
+Lemma accf_None_cons x tl : accf None (x :: tl) = Some (fold_left smax tl x).
+Proof. simpl. apply accf_Some. Qed.
+
+Lemma accf_None_max_list l : accf None l = max_list l.
+Proof. destruct l as [|x tl]; [reflexivity|]. apply accf_None_cons. Qed.
+
+(* ------------------------------------------------------------------ *)
+(* (2) below col_end the scan never terminates early                   *)
+
+Lemma pw_scan_row_below ce (r : row) cur acc :
+  Forall (fun e => fst e < ce) r ->
+  pw_scan_row ce r cur acc = ([], cur, accf acc (rvals r)).
+Proof.
+  intro H; revert acc; induction H as [|[c v] tl Hc _ IH]; intro acc; simpl; [reflexivity|].
+  simpl in Hc. replace (Nat.leb ce c) with false by lia. apply IH.
+Qed.
+
+Lemma pw_pass_below ce (js : list row) cur acc :
+  Forall (Forall (fun e => fst e < ce)) js ->
+  pw_pass ce js cur acc = (map (fun _ => []) js, cur, accf acc (jvals js)).
+Proof.
+  intro H; revert acc; induction H as [|r rest Hr _ IH]; intro acc; simpl; [reflexivity|].
+  rewrite (pw_scan_row_below _ _ _ _ Hr), IH.
+  unfold jvals. simpl. rewrite accf_app. reflexivity.
+Qed.
+
+Lemma div_eq_lt bs J c : 0 < bs -> c / bs = J -> c < (J + 1) * bs.
+Proof.
+  intros Hbs <-. pose proof (Nat.mul_succ_div_gt c bs ltac:(lia)) as H.
+  rewrite Nat.mul_comm in H. replace (c / bs + 1) with (Datatypes.S (c / bs)) by lia. exact H.
+Qed.
+
+Lemma single_col_below bs J (js : list row) :
+  0 < bs ->
+  Forall (Forall (fun e => Nat.div (fst e) bs = J)) js ->
+  Forall (Forall (fun e => fst e < (J + 1) * bs)) js.
+Proof.
+  intros Hbs H. eapply Forall_impl; [|exact H]. intros r Hr.
+  eapply Forall_impl; [|exact Hr]. intros e He. apply div_eq_lt; assumption.
+Qed.
+
+(* ------------------------------------------------------------------ *)
+(* (1) pw_init                                                         *)
+
+Definition init_step (cur : option nat) (r : row) : option nat :=
+  match r with [] => cur | e :: _ => upd_cur cur (fst e) end.
+
+Lemma pw_init_fold (js : list row) : pw_init js = fold_left init_step js None.
+Proof. reflexivity. Qed.
+
+Definition okcur (bs J : nat) (cur : option nat) : Prop :=
+  match cur with None => True | Some c => c / bs = J end.
+
+Lemma min_cases a b : Nat.min a b = a \/ Nat.min a b = b.
+Proof. lia. Qed.
+
+Lemma init_step_ok bs J cur (r : row) :
+  Forall (fun e => Nat.div (fst e) bs = J) r -> okcur bs J cur -> okcur bs J (init_step cur r).
+Proof.
+  intros Hr Hc. destruct r as [|e tl]; [exact Hc|]. simpl.
+  pose proof (Forall_inv Hr) as He. simpl in He.
+  destruct cur as [c0|]; simpl in *; [|exact He].
+  destruct (min_cases c0 (fst e)) as [-> | ->]; assumption.
+Qed.
+
+Lemma init_fold_ok bs J (js : list row) cur :
+  Forall (Forall (fun e => Nat.div (fst e) bs = J)) js -> okcur bs J cur ->
+  okcur bs J (fold_left init_step js cur).
+Proof.
+  intro H; revert cur; induction H as [|r rest Hr _ IH]; intros cur Hc; simpl; [exact Hc|].
+  apply IH. apply init_step_ok; assumption.
+Qed.
+
+Lemma init_fold_Some (js : list row) c : exists c', fold_left init_step js (Some c) = Some c'.
+Proof.
+  revert c; induction js as [|r rest IH]; intro c; simpl; [eauto|].
+  destruct r as [|e tl]; simpl; apply IH.
+Qed.
+
+Lemma init_fold_nonempty (js : list row) :
+  Exists (fun r => r <> []) js -> exists c, fold_left init_step js None = Some c.
+Proof.
+  induction 1 as [r rest Hr | r rest _ IH]; simpl.
+  - destruct r as [|e tl]; [congruence|]. simpl. apply init_fold_Some.
+  - destruct r as [|e tl]; simpl; [exact IH|apply init_fold_Some].
+Qed.
+
+Lemma pw_init_single bs J (js : list row) :
+  Forall (Forall (fun e => Nat.div (fst e) bs = J)) js ->
+  Exists (fun r => r <> []) js ->
+  exists c, pw_init js = Some c /\ c / bs = J.
+Proof.
+  intros H E. rewrite pw_init_fold.
+  destruct (init_fold_nonempty js E) as [c Hc]. exists c. split; [exact Hc|].
+  pose proof (init_fold_ok bs J js None H I) as Hok. rewrite Hc in Hok. exact Hok.
+Qed.
+
+Lemma pw_init_empty (js : list row) : Forall (fun r => r = []) js -> pw_init js = None.
+Proof.
+  rewrite pw_init_fold. induction 1 as [|r rest -> _ IH]; simpl; [reflexivity|exact IH].
+Qed.
+
+(* ------------------------------------------------------------------ *)
+(* (3) closed form of the model                                        *)
+
+Lemma jvals_nonempty (js : list row) :
+  Exists (fun r => r <> []) js -> exists x tl, jvals js = x :: tl.
+Proof.
+  unfold jvals. induction 1 as [r rest Hr | r rest _ IH]; simpl.
+  - destruct r as [|e tl]; [congruence|]. simpl. eauto.
+  - destruct r as [|e tl]; simpl; [exact IH|eauto].
+Qed.
+
+Lemma pw_block_row_accf bs J (js : list row) :
+  0 < bs ->
+  Forall (Forall (fun e => Nat.div (fst e) bs = J)) js ->
+  Exists (fun r => r <> []) js ->
+  pw_block_row bs js = [(J, match accf None (jvals js) with None => s0 | Some m => m end)].
+Proof.
+  intros Hbs H E.
+  destruct (pw_init_single bs J js H E) as [c [Hc HJ]].
+  unfold pw_block_row. rewrite Hc.
+  rewrite PwCopy.pw_loop_unroll by (rewrite PwCopy.pw_fuel_total; lia).
+  rewrite HJ. rewrite (pw_pass_below _ _ _ _ (single_col_below bs J js Hbs H)).
+  rewrite PwCopy.pw_loop_None. reflexivity.
+Qed.
+
+(* the closed form: [(J, max of the norms in storage order)] *)
+Theorem pw_block_row_single_column_partial bs J (js : list row) :
+  0 < bs ->
+  Forall (Forall (fun e => Nat.div (fst e) bs = J)) js ->
+  Exists (fun r => r <> []) js ->
+  pw_block_row bs js =
+  [(J, fold_left smax (tl (flat_map (map (fun e => sabs (snd e))) js))
+                      (hd s0 (flat_map (map (fun e => sabs (snd e))) js)))].
+Proof.
+  intros Hbs H E. rewrite (pw_block_row_accf bs J js Hbs H E).
+  change (flat_map (map (fun e : nat * S => sabs (snd e))) js) with (jvals js).
+  destruct (jvals_nonempty js E) as [x [tl ->]]. rewrite accf_None_cons. reflexivity.
+Qed.
+
+(* ------------------------------------------------------------------ *)
+(* (4) the specification on the same sub-domain                        *)
+
+Lemma filter_all {X} (p : X -> bool) (l : list X) :
+  Forall (fun x => p x = true) l -> filter p l = l.
+Proof. induction 1 as [|x tl Hx _ IH]; simpl; [reflexivity|]. rewrite Hx, IH. reflexivity. Qed.
+
+Lemma filter_none {X} (p : X -> bool) (l : list X) :
+  Forall (fun x => p x = false) l -> filter p l = [].
+Proof. induction 1 as [|x tl Hx _ IH]; simpl; [reflexivity|]. rewrite Hx. exact IH. Qed.
+
+Lemma block_vals_same bs J (js : list row) :
+  Forall (Forall (fun e => Nat.div (fst e) bs = J)) js -> block_vals bs J js = jvals js.
+Proof.
+  unfold block_vals, jvals. induction 1 as [|r rest Hr _ IH]; simpl; [reflexivity|].
+  rewrite IH. f_equal. unfold rvals. f_equal. apply filter_all.
+  eapply Forall_impl; [|exact Hr]. intros e He. simpl in He. apply Nat.eqb_eq. exact He.
+Qed.
+
+Lemma block_vals_other bs J J' (js : list row) :
+  J' <> J ->
+  Forall (Forall (fun e => Nat.div (fst e) bs = J)) js -> block_vals bs J' js = [].
+Proof.
+  intro Hne. unfold block_vals. induction 1 as [|r rest Hr _ IH]; simpl; [reflexivity|].
+  rewrite IH, app_nil_r. rewrite filter_none; [reflexivity|].
+  eapply Forall_impl; [|exact Hr]. intros e He. simpl in He. apply Nat.eqb_neq. lia.
+Qed.
+
+Lemma flat_map_nil {X Y} (f : X -> list Y) (l : list X) :
+  (forall x, In x l -> f x = []) -> flat_map f l = [].
+Proof.
+  induction l as [|x tl IH]; intro H; simpl; [reflexivity|].
+  rewrite (H x (or_introl eq_refl)), IH; [reflexivity|]. intros y Hy. apply H. right. exact Hy.
+Qed.
+
+Lemma flat_map_seq_single {Y} (f : nat -> list Y) J n : forall s,
+  s <= J < s + n -> (forall j, j <> J -> f j = []) -> flat_map f (seq s n) = f J.
+Proof.
+  induction n as [|n IH]; intros s Hs Hf; [lia|]. simpl.
+  destruct (Nat.eq_dec s J) as [->|Hne].
+  - rewrite flat_map_nil; [apply app_nil_r|].
+    intros j Hj. apply in_seq in Hj. apply Hf. lia.
+  - rewrite (Hf s Hne). simpl. apply IH; [lia|exact Hf].
+Qed.
+
+Lemma pw_spec_row_single bs mp J (js : list row) :
+  J < mp ->
+  Forall (Forall (fun e => Nat.div (fst e) bs = J)) js ->
+  pw_spec_row bs mp js =
+  match max_list (jvals js) with None => [] | Some m => [(J, m)] end.
+Proof.
+  intros HJ H. unfold pw_spec_row.
+  rewrite (flat_map_seq_single _ J mp 0) by
+    (try lia; intros j Hj; rewrite (block_vals_other bs J j js Hj H); reflexivity).
+  rewrite (block_vals_same bs J js H). reflexivity.
+Qed.
+
+(* ------------------------------------------------------------------ *)
+(* main theorems                                                       *)
+
+Theorem pw_block_row_single_column bs mp J (js : list row) :
+  0 < bs -> J < mp ->
+  Forall (Forall (fun e => Nat.div (fst e) bs = J)) js ->
+  Exists (fun r => r <> []) js ->
+  pw_block_row bs js = pw_spec_row bs mp js.
+Proof.
+  intros Hbs HJ H E.
+  rewrite (pw_block_row_accf bs J js Hbs H E), (pw_spec_row_single bs mp J js HJ H).
+  rewrite accf_None_max_list.
+  destruct (jvals_nonempty js E) as [x [tl ->]]. reflexivity.
+Qed.
+
+(* both sides, explicitly *)
+Theorem pw_block_row_single_column_value bs mp J (js : list row) :
+  0 < bs -> J < mp ->
+  Forall (Forall (fun e => Nat.div (fst e) bs = J)) js ->
+  Exists (fun r => r <> []) js ->
+  let vals := flat_map (map (fun e => sabs (snd e))) js in
+  pw_block_row bs js = [(J, fold_left smax (tl vals) (hd s0 vals))] /\
+  pw_spec_row bs mp js = [(J, fold_left smax (tl vals) (hd s0 vals))].
+Proof.
+  intros Hbs HJ H E vals.
+  rewrite <- (pw_block_row_single_column bs mp J js Hbs HJ H E).
+  split; apply (pw_block_row_single_column_partial bs J js Hbs H E).
+Qed.
+
+(* the empty block row *)
+Lemma all_empty_single bs J (js : list row) :
+  Forall (fun r => r = []) js -> Forall (Forall (fun e => Nat.div (fst e) bs = J)) js.
+Proof. intro H. eapply Forall_impl; [|exact H]. intros r ->. constructor. Qed.
+
+Lemma jvals_empty (js : list row) : Forall (fun r => r = []) js -> jvals js = [].
+Proof. unfold jvals. induction 1 as [|r rest -> _ IH]; simpl; [reflexivity|exact IH]. Qed.
+
+Lemma block_vals_empty bs J (js : list row) :
+  Forall (fun r => r = []) js -> block_vals bs J js = [].
+Proof.
+  unfold block_vals. induction 1 as [|r rest -> _ IH]; simpl; [reflexivity|exact IH].
+Qed.
+
+Theorem pw_block_row_empty bs mp (js : list row) :
+  Forall (fun r => r = []) js ->
+  pw_block_row bs js = [] /\ pw_spec_row bs mp js = [].
+Proof.
+  intro H. split.
+  - unfold pw_block_row. rewrite (pw_init_empty js H). apply PwCopy.pw_loop_None.
+  - unfold pw_spec_row. apply flat_map_nil. intros J _.
+    rewrite (block_vals_empty bs J js H). reflexivity.
+Qed.
+
+(* ------------------------------------------------------------------ *)
+(* lifted to whole matrices                                            *)
+
+Definition single_or_empty (bs mp : nat) (js : list row) : Prop :=
+  Forall (fun r => r = []) js \/
+  exists J, J < mp /\ Forall (Forall (fun e => Nat.div (fst e) bs = J)) js.
+
+Lemma empty_or_nonempty (js : list row) :
+  Forall (fun r => r = []) js \/ Exists (fun r => r <> []) js.
+Proof.
+  induction js as [|r rest IH]; [left; constructor|].
+  destruct r as [|e tl].
+  - destruct IH as [IH|IH]; [left; constructor; [reflexivity|exact IH]|right; apply Exists_cons_tl; exact IH].
+  - right. apply Exists_cons_hd. discriminate.
+Qed.
+
+Lemma pw_block_row_single_or_empty bs mp (js : list row) :
+  0 < bs -> single_or_empty bs mp js -> pw_block_row bs js = pw_spec_row bs mp js.
+Proof.
+  intros Hbs [He | [J [HJ H]]].
+  - destruct (pw_block_row_empty bs mp js He) as [-> ->]. reflexivity.
+  - destruct (empty_or_nonempty js) as [He|E].
+    + destruct (pw_block_row_empty bs mp js He) as [-> ->]. reflexivity.
+    + apply (pw_block_row_single_column bs mp J js Hbs HJ H E).
+Qed.
+
+Theorem pointwise_matrix_single_column (A : crs) bs :
+  bs <> 0 -> nrows A / bs * bs = nrows A ->
+  Forall (single_or_empty bs (ncols A / bs)) (groups (nrows A / bs) bs (rows A)) ->
+  pointwise_matrix A bs = Some (pointwise_spec A bs).
+Proof.
+  intros Hbs Hdiv H. unfold pointwise_matrix, pointwise_spec.
+  replace (Nat.eqb bs 0) with false by lia.
+  replace (Nat.eqb (nrows A / bs * bs) (nrows A)) with true by lia. simpl.
+  f_equal. f_equal. apply map_ext_in. intros js Hjs.
+  apply pw_block_row_single_or_empty; [lia|].
+  rewrite Forall_forall in H. apply H. exact Hjs.
+Qed.
+
+End PwPos.
+
+
+End PwPos.
+Local Open Scope S_scope.
